@@ -302,6 +302,27 @@ def key_quotable(key):
     return triple_ok
 
 
+def cif2_disallowed(units):
+    """does the string hold a character CIF 2.0 does not allow (cif_has_disallowed_chars of utils.c): C0 controls except TAB LF
+    CR, U+007F-U+009F, U+FDD0-U+FDEF, U+FFFE, U+FFFF, an unpaired surrogate, U+xxFFFE / U+xxFFFF"""
+    i, n = 0, len(units)
+    while i < n:
+        c = units[i]
+        if c < 0xD800 or c > 0xDFFF:
+            if (c < 0x20 and c not in (9, 10, 13)) or 0x7F <= c < 0xA0 or 0xFDCF < c < 0xFDF0 or c > 0xFFFD:
+                return True
+        elif c >= 0xDC00:
+            return True
+        else:
+            if i + 1 >= n or not (0xDC00 <= units[i + 1] <= 0xDFFF):
+                return True
+            if (units[i + 1] & 0x3FE) == 0x3FE and (c & 0x3F) == 0x3F:
+                return True
+            i += 1
+        i += 1
+    return False
+
+
 def first_line_fills(key):
     """several lines, the first of exactly LINE - 3 units: the opening triple delimiter + first line fill a line"""
     return 10 in key and list(key).index(10) + 3 == LINE
@@ -337,6 +358,8 @@ def check_output(ver, req_tokens, d):
             return None
         if rc in (CIF_DISALLOWED_VALUE, CIF_DISALLOWED_CHAR) and (any(13 in s for _, _, s in strings) or any(13 in k for k in keys)):
             return None                               # a string holding a CR: outside the totality clause ("no CR")
+        if rc == CIF_DISALLOWED_CHAR and (any(cif2_disallowed(s) for _, _, s in strings) or any(cif2_disallowed(k) for k in keys)):
+            return None                               # not "strings of CIF 2.0 characters": outside the totality clause
         return "cif_write failed with code %d on a writable CIF" % rc
     data = out_bytes(d.get("out"))
     magic = b"#\\#CIF_1.1\n" if ver == 1 else b"#\\#CIF_2.0\n"
@@ -396,6 +419,14 @@ def known_class(ver, req_tokens, d):
     _, strings, keys, _ = request_strings(req_tokens)
     if any(13 in s for _, _, s in strings) or any(13 in k for k in keys):
         return "cr-in-string-comes-back-lf"
+    # open finding F-disallowed-char-written (CIF 2.0 mode only): a string holding a character CIF 2.0 does not allow is written
+    # as it is; the re-parse reports CIF_DISALLOWED_CHAR (and nothing else is wrong)
+    if ver != 1 and any(cif2_disallowed(s) for _, _, s in strings) and d.get("prc") == 0 \
+            and set((d.get("errs") or "").split(",")) == {str(CIF_DISALLOWED_CHAR)}:
+        d2 = dict(d)
+        d2["errs"] = "-"
+        if check_output(ver, req_tokens, d2) is None:
+            return "cif2-disallowed-character-written"
     return None
 
 
